@@ -88,7 +88,7 @@ const std::vector<OptDef>& optTable() {
 }
 std::string genValue(Choices& c, const std::string& n) {
     auto b = [&]() { return std::string(c.flip() ? "true" : "false"); };
-    if (n == "Hash") return std::to_string(c.of(std::vector<int>{1, 2, 4, 8, 16, 32, 64}));
+    if (n == "Hash") return std::to_string(c.of(std::vector<int>{1, 2, 3, 4, 6, 8, 12, 16, 5, 7, 24, 32, 48, 64})); // sizes that are not a power of two index the table differently
     if (n == "Threads") return std::to_string(c.range(1, gMaxThreads));
     if (n == "MultiPV") return std::to_string(c.range(1, 4));
     if (n == "Contempt" || n == "AnalyzeContempt") { int v = c.range(-300, 300); return std::to_string(v == 0 ? 25 : v); }
@@ -324,20 +324,31 @@ std::string probeGoStr(const ProbeGo& g, bool tbProbe) {
 Case genCase(Choices& c, const std::string& sub) {
     Case k; k.sub = sub;
     GenCfg cfg; GenState st;
-    bool wrap = sub == "wrap", tbp = sub == "tb";
+    bool wrap = sub == "wrap", tbp = sub == "tb", salt = sub == "salt";
     int n;
-    if (wrap) { n = c.of(std::vector<int>{15, 31, 16, 32}); cfg.allowHash = false; cfg.allowNoAge = false; k.hash = c.of(std::vector<int>{1, 16, 2, 4, 16}); }
-    else if (tbp) { n = c.range(1, 12); k.hash = c.of(std::vector<int>{8, 16, 8, 32}); }
-    else { n = c.range(1, 40); k.hash = c.pick(10) < 7 ? 16 : c.of(std::vector<int>{1, 2, 4, 8, 32, 64}); }
+    if (wrap) { n = c.of(std::vector<int>{15, 31, 16, 32}); cfg.allowHash = false; cfg.allowNoAge = false; k.hash = c.of(std::vector<int>{1, 16, 2, 3, 4, 6, 16}); }
+    else if (salt) { n = c.range(1, 4); cfg.allowHash = false; k.hash = c.of(std::vector<int>{3, 6, 5, 7, 3, 12}); } // small tables whose size is not a power of two: every key bit matters for the bucket
+    else if (tbp) { n = c.range(1, 12); k.hash = c.of(std::vector<int>{8, 16, 12, 8, 32, 24}); }
+    else { n = c.range(1, 40); k.hash = c.pick(10) < 5 ? 16 : c.of(std::vector<int>{3, 6, 1, 2, 4, 5, 7, 8, 12, 24, 32, 64}); }
     k.net = c.pick((int)gNets.size());
     ProbeGo pg = drawProbeGo(c, tbp);
+    if (salt) { pg.kind = 0; pg.depth = std::max(pg.depth, 8); }   // a probe large enough to overflow buckets of the small table
     k.go = probeGoStr(pg, tbp);
     int tbAt = tbp ? n - 1 - c.pick(std::min(n, 3)) : -1;
     Pool pl = genPool(c, cfg, tbp);
     k.probe = pl.probe;
     if (k.hash != 16) { Step s; s.kind = "opt"; s.name = "Hash"; s.value = std::to_string(k.hash); applyOpt(s, st); st.resized = false; k.hist.push_back(s); }
+    if (salt) {   // state that lives outside the table but enters its addressing: the contempt salt of the hash keys
+        Step s; s.kind = "opt";
+        if (c.chance(2, 3)) { s.name = "Contempt"; int v = c.range(-300, 300); s.value = std::to_string(v == 0 ? 25 : v); applyOpt(s, st); k.hist.push_back(s); }
+        else {
+            s.name = "UCI_AnalyseMode"; s.value = "true"; applyOpt(s, st); k.hist.push_back(s);
+            Step t; t.kind = "opt"; t.name = "AnalyzeContempt"; int v = c.range(-300, 300); t.value = std::to_string(v == 0 ? 25 : v); applyOpt(t, st); k.hist.push_back(t);
+        }
+    }
     for (int i = 0; i < n; i++) {
         int no = c.empty() ? 0 : c.pick(4) == 0 ? c.range(1, 3) : c.pick(2);
+        if (salt && i == 0) no = 0;   // the first search runs under the option just set
         for (int j = 0; j < no; j++) {
             if (c.chance(1, 6)) { Step s; s.kind = "newgame"; st.newGame = true; k.hist.push_back(s); continue; }
             Step s = genOptStep(c, st, cfg);
@@ -469,6 +480,7 @@ void classify(const Case& k, vh::Stats& st, const RunOut& fresh) {
     if (rel) st.cls("history searched the probe position or a neighbour in its game");
     if (relContempt) st.clsSample("related position searched under non-zero contempt (reverted)", mk);
     if (k.hash != 16) st.cls("probe with non-default Hash");
+    if (k.hash & (k.hash - 1)) st.cls("probe with a Hash size that is not a power of two");
     st.cls(k.go.find("depth") != std::string::npos ? (k.go.find("nodes") != std::string::npos ? "probe: depth + node guard" : "probe: depth-limited") : "probe: node-limited");
     st.count("probe nodes (fresh, total)", (long)fresh.nodes);
     for (auto& l : fresh.proj) if (l.find(" mate ") != std::string::npos) { st.cls("probe reports a mate score"); break; }
@@ -526,11 +538,12 @@ int main(int argc, char** argv) {
         });
     } else {
         long n = a.cases;
-        long nWrap = a.num("wrap", (n * 25 + 50) / 100), nTb = a.num("tb", (n * 15 + 50) / 100);
-        long nHist = std::max(0L, n - nWrap - nTb);
+        long nWrap = a.num("wrap", (n * 25 + 50) / 100), nTb = a.num("tb", (n * 15 + 50) / 100), nSalt = a.num("salt", (n * 10 + 50) / 100);
+        long nHist = std::max(0L, n - nWrap - nTb - nSalt);
         vh::runProp("hist", nHist, 60.0, [&](Choices& c) { runAndJudge(genCase(c, "hist"), st); });
         vh::runProp("wrap", nWrap, 60.0, [&](Choices& c) { runAndJudge(genCase(c, "wrap"), st); });
         vh::runProp("tb", nTb, 20.0, [&](Choices& c) { runAndJudge(genCase(c, "tb"), st); });
+        vh::runProp("salt", nSalt, 20.0, [&](Choices& c) { runAndJudge(genCase(c, "salt"), st); });
         rc = vh::finish();
     }
     if (system(("rm -rf " + gWork).c_str())) {}
